@@ -454,6 +454,241 @@ func (w *world) updSpec(d specDoc) {
 	w.c.Hit("op-update-spec-" + out)
 }
 
+// ---------------------------------------------------------------- Update with Upsert / $unset
+
+// upShape: how an Update addresses its document(s) and where the namespace is given.
+type upShape struct {
+	byName     bool // filter by name instead of by id
+	nsInFilter bool // namespace is part of the filter
+	nsInSet    bool // namespace is (also) part of the $set document; forced when a document may be created without it
+	unsetName  bool // by id only: the name is removed with $unset instead of being set
+	upsert     bool
+}
+
+func (sh upShape) String() string {
+	b := func(x bool) int {
+		if x {
+			return 1
+		}
+		return 0
+	}
+	return fmt.Sprintf("name%d-nsf%d-nss%d-unset%d-upsert%d", b(sh.byName), b(sh.nsInFilter), b(sh.nsInSet), b(sh.unsetName), b(sh.upsert))
+}
+
+func normShape(sh upShape, name int) upShape {
+	if sh.byName && name == 0 {
+		sh.byName = false
+	}
+	if sh.byName {
+		sh.unsetName = false
+	}
+	return sh
+}
+
+// upsertSpec applies Update(filter, {$set …[, $unset name]}, Upsert) to the spec store. d carries the
+// wanted content; d.id / d.name / d.ns are what the filter is built from. Existing matches are
+// updated (they keep id, namespace and – when addressed by name – their name); with no match and
+// Upsert a document is created from the filter's equality fields and the $set document. The model
+// is fed the mutation itself: one `us` per updated document (store order), or one `is`.
+func (w *world) upsertSpec(d specDoc, sh upShape) {
+	sh = normShape(sh, d.name)
+	filter := map[string]any{}
+	if sh.byName {
+		filter[spec.KeyName] = sName(d.name)
+	} else {
+		filter[spec.KeyID] = uid(d.id)
+	}
+	if sh.nsInFilter {
+		filter[spec.KeyNamespace] = nsName(d.ns)
+	}
+	var matches []specDoc
+	for id := 1; id <= nSpecIDs; id++ {
+		m, ok := w.specs[id]
+		if !ok || (sh.nsInFilter && m.ns != d.ns) {
+			continue
+		}
+		if (sh.byName && m.name == d.name) || (!sh.byName && m.id == d.id) {
+			matches = append(matches, m)
+		}
+	}
+	if len(matches) == 0 && !sh.upsert {
+		return // a plain Update that matches nothing: no mutation, nothing to tell the model
+	}
+	set := map[string]any{spec.KeyKind: kindName(d.kind), spec.KeyEnv: d.envAny(), "ver": d.ver, "echo": d.echo()}
+	update := map[string]any{"$set": set}
+	create := len(matches) == 0
+	if !sh.byName {
+		if sh.unsetName {
+			update["$unset"] = map[string]any{spec.KeyName: 1}
+			d.name = 0
+		} else {
+			set[spec.KeyName] = sName(d.name)
+		}
+	}
+	if create {
+		if sh.byName {
+			set[spec.KeyID] = uid(d.id)
+		}
+		if sh.nsInSet || !sh.nsInFilter {
+			set[spec.KeyNamespace] = nsName(d.ns)
+		}
+	} else if sh.nsInSet && !sh.byName {
+		d.ns = matches[0].ns // a spec keeps its namespace for life: the $set repeats it
+		set[spec.KeyNamespace] = nsName(d.ns)
+	} else if sh.nsInSet && sh.nsInFilter {
+		set[spec.KeyNamespace] = nsName(d.ns)
+	}
+	var opts []store.UpdateOptions
+	if sh.upsert {
+		opts = append(opts, store.UpdateOptions{Upsert: true})
+	}
+	w.remark(fmt.Sprintf("the next line is done on the spec store as Update(filter %s, %s, Upsert=%v)", keysOf(filter), describeUpdate(update), sh.upsert))
+	n, err := w.specStore.Update(w.ctx, filter, update, opts...)
+	w.c.Hit("op-upsert-spec-" + sh.String())
+	if create {
+		_, exists := w.specs[d.id]
+		out := errClass(err)
+		if (out == "dup") != exists || (out != "dup" && out != "ok") || (out == "ok" && n != 1) {
+			w.fail("store-outcome", fmt.Sprintf("upsert (create) spec %d via %s: %s n=%d, id exists=%v", d.id, sh, out, n, exists))
+		}
+		if out == "ok" {
+			w.specs[d.id] = d
+			w.c.Hit("upsert-created-spec")
+		}
+		w.op(d.line("is"), out)
+		return
+	}
+	if err != nil || n != len(matches) {
+		w.fail("store-outcome", fmt.Sprintf("update specs via %s: err=%v n=%d, %d documents match", sh, err, n, len(matches)))
+	}
+	for _, m := range matches {
+		m.kind, m.env, m.ver = d.kind, d.env, d.ver
+		if !sh.byName {
+			m.name = d.name
+		}
+		out := "ok"
+		if err != nil {
+			out = "err:" + err.Error()
+		} else {
+			w.specs[m.id] = m
+		}
+		w.op(m.line("us"), out)
+	}
+	w.c.Hit("upsert-updated-spec")
+}
+
+// upsertVal: the same on the value store.
+func (w *world) upsertVal(v valDoc, sh upShape) {
+	sh = normShape(sh, v.name)
+	filter := map[string]any{}
+	if sh.byName {
+		filter[value.KeyName] = vName(v.name)
+	} else {
+		filter[value.KeyID] = uid(v.id)
+	}
+	if sh.nsInFilter {
+		filter[value.KeyNamespace] = nsName(v.ns)
+	}
+	var matches []valDoc
+	for id := valBase; id < valBase+nValIDs; id++ {
+		m, ok := w.vals[id]
+		if !ok || (sh.nsInFilter && m.ns != v.ns) {
+			continue
+		}
+		if (sh.byName && m.name == v.name) || (!sh.byName && m.id == v.id) {
+			matches = append(matches, m)
+		}
+	}
+	if len(matches) == 0 && !sh.upsert {
+		return
+	}
+	set := map[string]any{value.KeyData: v.ver}
+	update := map[string]any{"$set": set}
+	create := len(matches) == 0
+	if !sh.byName {
+		if sh.unsetName {
+			update["$unset"] = map[string]any{value.KeyName: 1}
+			v.name = 0
+		} else {
+			set[value.KeyName] = vName(v.name)
+		}
+	}
+	if create {
+		if sh.byName {
+			set[value.KeyID] = uid(v.id)
+		}
+		if sh.nsInSet || !sh.nsInFilter {
+			set[value.KeyNamespace] = nsName(v.ns)
+		}
+	} else if sh.nsInSet && !sh.byName {
+		v.ns = matches[0].ns
+		set[value.KeyNamespace] = nsName(v.ns)
+	} else if sh.nsInSet && sh.nsInFilter {
+		set[value.KeyNamespace] = nsName(v.ns)
+	}
+	var opts []store.UpdateOptions
+	if sh.upsert {
+		opts = append(opts, store.UpdateOptions{Upsert: true})
+	}
+	w.remark(fmt.Sprintf("the next line is done on the value store as Update(filter %s, %s, Upsert=%v)", keysOf(filter), describeUpdate(update), sh.upsert))
+	n, err := w.valueStore.Update(w.ctx, filter, update, opts...)
+	w.c.Hit("op-upsert-value-" + sh.String())
+	if create {
+		_, exists := w.vals[v.id]
+		out := errClass(err)
+		if (out == "dup") != exists || (out != "dup" && out != "ok") || (out == "ok" && n != 1) {
+			w.fail("store-outcome", fmt.Sprintf("upsert (create) value %d via %s: %s n=%d, id exists=%v", v.id, sh, out, n, exists))
+		}
+		if out == "ok" {
+			w.vals[v.id] = v
+			w.c.Hit("upsert-created-value")
+		}
+		w.op(v.line("iv"), out)
+		return
+	}
+	if err != nil || n != len(matches) {
+		w.fail("store-outcome", fmt.Sprintf("update values via %s: err=%v n=%d, %d documents match", sh, err, n, len(matches)))
+	}
+	for _, m := range matches {
+		m.ver = v.ver
+		if !sh.byName {
+			m.name = v.name
+		}
+		out := "ok"
+		if err != nil {
+			out = "err:" + err.Error()
+		} else {
+			w.vals[m.id] = m
+		}
+		w.op(m.line("uv"), out)
+	}
+	w.c.Hit("upsert-updated-value")
+}
+
+func keysOf(m map[string]any) string {
+	var ks []string
+	for k := range m {
+		ks = append(ks, k)
+	}
+	sort.Strings(ks)
+	return "{" + strings.Join(ks, ",") + "}"
+}
+
+func describeUpdate(u map[string]any) string {
+	var ps []string
+	for _, op := range []string{"$set", "$unset"} {
+		if m, ok := u[op].(map[string]any); ok {
+			ps = append(ps, op+" "+keysOf(m))
+		}
+	}
+	return strings.Join(ps, " ")
+}
+
+func genShape(rng *lib.RNG) upShape {
+	sh := upShape{byName: rng.Chance(1, 3), nsInFilter: rng.Bool(), nsInSet: rng.Bool(), unsetName: rng.Chance(1, 4), upsert: rng.Chance(4, 5)}
+	return sh
+}
+
 func (w *world) delSpec(id int) {
 	n, err := w.specStore.Delete(w.ctx, map[string]any{spec.KeyID: uid(id)})
 	out := "ok"
@@ -723,7 +958,19 @@ func pickID(rng *lib.RNG, base, n int, exists func(int) bool, wantExisting bool)
 func (w *world) mutate(rng *lib.RNG, nns int) {
 	hasSpec := func(id int) bool { _, ok := w.specs[id]; return ok }
 	hasVal := func(id int) bool { _, ok := w.vals[id]; return ok }
-	switch rng.Weighted([]int{5, 5, 2, 5, 5, 2}) {
+	switch rng.Weighted([]int{5, 5, 2, 5, 5, 2, 4, 4}) {
+	case 6: // Update with Upsert / $unset on the spec store: on an absent or an existing document
+		d := genSpec(rng, pickID(rng, 1, nSpecIDs, hasSpec, rng.Bool()), nns, w.sortedVals())
+		if old, ok := w.specs[d.id]; ok && rng.Bool() {
+			d.ns, d.name = old.ns, old.name
+		}
+		w.upsertSpec(d, genShape(rng))
+	case 7:
+		v := genVal(rng, pickID(rng, valBase, nValIDs, hasVal, rng.Bool()), nns)
+		if old, ok := w.vals[v.id]; ok && rng.Bool() {
+			v.ns, v.name = old.ns, old.name
+		}
+		w.upsertVal(v, genShape(rng))
 	case 0:
 		w.insSpec(genSpec(rng, pickID(rng, 1, nSpecIDs, hasSpec, false), nns, w.sortedVals()))
 	case 1:
@@ -1386,6 +1633,78 @@ func (w *world) parkedDelete(rng *lib.RNG, nns int) {
 	w.c.Hit("parked-delete")
 }
 
+// ---------------------------------------------------------------- documents created through Update(Upsert)
+
+// upsertCase (directed): Watch + Reconcile; a spec, or the value a loaded spec is waiting for, is
+// CREATED through Update(filter, {$set …}, Upsert) – addressed by id, by id+namespace or by name,
+// the namespace in the filter or only in the $set document; at quiescence the spec must be loaded /
+// the waiting spec bound.
+func upsertCase(c *lib.Ctx, rng *lib.RNG, sc *lib.Script, fails *[]lib.OracleFail, onValue bool, sh upShape) string {
+	w := newWorld(c, sc, fails, 1)
+	defer w.close()
+	w.op("rt 1", "ok")
+	sid, vid, vname := 1+rng.Intn(nSpecIDs), valBase+rng.Intn(nValIDs), rng.Range(1, 4)
+	e := envEnt{key: 1, byID: rng.Bool(), ref: vid}
+	if !e.byID {
+		e.ref = vname
+	}
+	d := specDoc{id: sid, ns: 1, name: rng.Range(1, 3), kind: rng.Intn(3), ver: 1, env: []envEnt{e}}
+	v := valDoc{id: vid, ns: 1, name: vname, ver: 1}
+	other := specDoc{id: sid%nSpecIDs + 1, ns: 1, kind: rng.Intn(2), ver: 3}
+	w.insSpec(other)
+	if onValue {
+		w.insSpec(d) // loaded unbound: its value does not exist yet
+	} else {
+		w.insVal(v)
+	}
+	if err := w.rt.Watch(w.ctx); err != nil {
+		w.fail("watch-error", err.Error())
+		return ""
+	}
+	w.op("watch", "ok")
+	w.load(nil)
+	done := make(chan error, 1)
+	go func() { done <- w.rt.Reconcile(w.ctx) }()
+	if onValue {
+		w.upsertVal(v, sh)
+	} else {
+		w.upsertSpec(d, sh)
+	}
+	got, ok := w.quiesce(3 * time.Second)
+	w.op("drain", "T "+got)
+	if !ok {
+		w.fail("table-not-target-after-upsert", fmt.Sprintf("a %s was created through Update(Upsert) (%s); 3 s later the table is [%s], the stores demand [%s]",
+			map[bool]string{false: "spec", true: "value"}[onValue], sh, got, tableString(w.target())))
+	}
+	// and an update through the same path, with $unset of the name when addressed by id
+	sh.unsetName = !sh.byName
+	if onValue {
+		v.ver = 2
+		w.upsertVal(v, sh)
+	} else {
+		d.ver = 2
+		w.upsertSpec(d, sh)
+	}
+	got, ok = w.quiesce(3 * time.Second)
+	w.op("drain", "T "+got)
+	if !ok {
+		w.fail("table-not-target-after-upsert", fmt.Sprintf("a %s was updated through Update(Upsert) (%s); 3 s later the table is [%s], the stores demand [%s]",
+			map[bool]string{false: "spec", true: "value"}[onValue], sh, got, tableString(w.target())))
+	}
+	w.takeNotes()
+	w.cancel()
+	select {
+	case <-done:
+	case <-time.After(10 * time.Second):
+		w.fail("reconcile-stuck", "Reconcile did not return 10 s after its context was cancelled")
+	}
+	c.Hit("upsert-directed")
+	if c.Evaluations < 2 {
+		c.Sample(w.trace)
+	}
+	return "u:" + strings.Join(w.trace, ";")
+}
+
 // ---------------------------------------------------------------- corpus
 
 // replayCorpus runs hand-written op files: every line is executed on the implementation and
@@ -1456,7 +1775,7 @@ func replayCorpus(c *lib.Ctx, sc *lib.Script, fails *[]lib.OracleFail) {
 }
 
 func Run(c *lib.Ctx) {
-	c.Rule = "random histories (≤30 ops quick / ≤70 thorough) of insert / update / delete on the spec store (6 ids, kinds k0 k1 registered, k2 k3 unknown, 0–2 env entries by id or by name) and the value store (6 ids, 4 names) over 2–3 namespaces with Load(nil) / Load({id}) / Load({$or}) at random points, every Load observed (whole table + notifications) and compared with Uniflow.Runtime.step and with the harness's own target; plus Watch+Reconcile runs (bursts of 1–4 mutations) compared at quiescence, plus forced overlaps of a parked Load with the mutation and the other consumer (verif yield hook), plus a directed family (the same spec / the same bound value updated 2–3 times while the reconciler's Load for the first update is parked, with / without an unrelated event afterwards) and the same as a random ingredient of the Watch+Reconcile histories (1 round in 4), plus a second directed family (a spec that a parked Load – the reload for its value's update, or a user's Load(nil) – has read is deleted / deleted and re-inserted here or in another namespace / loses its value, the reconciler gets a moment, the Load is released) and its random ingredient (1 round in 4); non-trivial = at least two Loads and a non-empty spec store, distinct by full trace"
+	c.Rule = "random histories (≤30 ops quick / ≤70 thorough) of insert / update / delete / Update with Upsert or $unset (documents addressed by id, id+namespace, name, namespace+name; namespace in the filter or only in $set; on existing and on absent documents) on the spec store (6 ids, kinds k0 k1 registered, k2 k3 unknown, 0–2 env entries by id or by name) and the value store (6 ids, 4 names) over 2–3 namespaces with Load(nil) / Load({id}) / Load({$or}) at random points, every Load observed (whole table + notifications) and compared with Uniflow.Runtime.step and with the harness's own target; plus Watch+Reconcile runs (bursts of 1–4 mutations) compared at quiescence, plus forced overlaps of a parked Load with the mutation and the other consumer (verif yield hook), plus a directed family (the same spec / the same bound value updated 2–3 times while the reconciler's Load for the first update is parked, with / without an unrelated event afterwards) and the same as a random ingredient of the Watch+Reconcile histories (1 round in 4), plus a second directed family (a spec that a parked Load – the reload for its value's update, or a user's Load(nil) – has read is deleted / deleted and re-inserted here or in another namespace / loses its value, the reconciler gets a moment, the Load is released) and its random ingredient (1 round in 4); non-trivial = at least two Loads and a non-empty spec store, distinct by full trace"
 	c.Assumptions = []string{
 		"each store mutation, each Load and each consumption of one stream event is one atomic step of the model (store mutex; loadMu of the fixed runtime)",
 		"a spec and a value keep their namespace for life (a move is delete + insert); env entries reference a value by id or by name (anonymous entries and Config.Environment are C18's subject and are not generated)",
@@ -1488,6 +1807,21 @@ func Run(c *lib.Ctx) {
 			for action := 0; action < 4; action++ {
 				sc.Begin()
 				c.Count(deleteCase(c, rng.Fork(), sc, &fails, byUser, action))
+			}
+		}
+	}
+	// directed family: documents created (and then updated) through Update(Upsert)
+	for rep := c.Scale(1, 5); rep > 0; rep-- {
+		for _, onValue := range []bool{false, true} {
+			for _, sh := range []upShape{
+				{upsert: true},                                 // filter {id}; namespace only in $set
+				{nsInFilter: true, upsert: true},               // filter {id, namespace}
+				{nsInFilter: true, nsInSet: true, upsert: true}, // namespace in both
+				{byName: true, upsert: true},                   // filter {name}; id and namespace only in $set
+				{byName: true, nsInFilter: true, upsert: true}, // filter {namespace, name}; id in $set
+			} {
+				sc.Begin()
+				c.Count(upsertCase(c, rng.Fork(), sc, &fails, onValue, sh))
 			}
 		}
 	}
